@@ -42,6 +42,8 @@ CLAIMED = {
  "C08": C("Coq theorems for every configuration: a size computation that succeeds IS the standard formula under its guard (conv: (i+2p-d(k-1)-1)/s+1, deconv: (i-1)s+k-2p, pool: (i-k)/s+1); for a layer returned by the constructor (kernels drawn by the constructor proved to have the requested dimensions) the pre-activation the forward pass produces has exactly the announced output shape, for convolution, deconvolution, max-pool and dense layers; the builders give each new layer the previous layer's output shape and switch the previous spatial layer to flatten before a dense layer of exactly c*h*w inputs; flatten is the row-major sequence and a flat vector of c*h*w elements is re-read as the tensor with that row-major sequence (nothing lost); a flat size is accepted only as 1 x r x r with r*r = size and rejected when it is no perfect square; over binary32, r*r is accepted for every r <= 8192 (finite sweep evaluated by the kernel, bound in the statement); kernel/weight/input gradients have the dimensions of the kernels/weights/input. Tie + falsifier: configuration lattice incl. odd sizes, non-dividing strides, large paddings, dense->spatial transitions, non-square flat sizes; announced vs produced shapes and panics compared exactly.",
           "Coq proof (nat arithmetic, constructor/forward refinement, vm_compute sweep for the f32 square root) + exact differential run", "3/C08",
           "The acceptance of r*r beyond r = 8192 is not proved (it depends on binary32 rounding of sizes above 2^26)."),
+ "C11": C("Coq theorems, generic in the number structure, for every layer list, L >= 1, all four skip-flag combinations, all five accumulations, flat and spatial blocks: the block built by the constructor (layout L copies of the list; skip table proved entry by entry: position r*len -> [block input] for 1 <= r < L with input skips, position L*len -> outputs of repetitions 1..L-1 with output skips when L > 1, nothing else) computes exactly the recursive specification `reps`: repetition 1 gets the input, every later repetition gets accumulate(previous output, [block input]) when input skips are on, the result is accumulate(last output, outputs of all earlier repetitions) when output skips are on, flattened when a dense layer follows (the builder is proved to set the flag); without skips this is the L-fold iteration of the plain sequential pass. Equality includes every recorded pre-/post-activation and panic. Tie: blocks of dense/conv/deconv/max-pool layers x loops 1..4 x skips x accumulations x flat/spatial inputs; falsifier: independent unrolled evaluation with the public tensor operations.",
+          "Coq proof (induction over repetitions with an invariant on the activation list, association-list lemmas) + differential run + unrolled oracle", "3/C11"),
 }
 PENDING = {}
 
